@@ -415,6 +415,21 @@ def valuations(j, rng, n):
             r2 = guard(j, site, feat, detail, ("val", site, bd, tb), fn)
             if r2 is not None:
                 check(j, float(np.max(np.abs(r2 - T))) <= TOL * sc, site, feat, "differs-from-base", detail, ("val", site, bd, tb))
+        # the rotational algebras alone: so(3) as a 3-vector and as a skew matrix, so(2) as a scalar and as a skew
+        # matrix, base functions and class methods - the rotation of exp(S) / the planar rotation by th2
+        from spatialmath import SO3, SO2
+        w = th * u
+        th2_ = th if i % 2 else -th
+        R2 = np.array([[math.cos(th2_), -math.sin(th2_)], [math.sin(th2_), math.cos(th2_)]])
+        for site, fn, want in (("base.trexp(so3-vector)", lambda: b.trexp(w), T[:3, :3]), ("base.trexp(so3-matrix)", lambda: b.trexp(b.skew(w)), T[:3, :3]),
+                               ("SO3.Exp(vector)", lambda: SO3.Exp(w).A, T[:3, :3]), ("SO3.Exp(matrix)", lambda: SO3.Exp(b.skew(w)).A, T[:3, :3]),
+                               ("base.trexp2(so2-scalar)", lambda: b.trexp2(th2_), R2), ("base.trexp2(so2-matrix)", lambda: b.trexp2(b.skew(th2_)), R2),
+                               ("SO2.Exp", lambda: SO2.Exp(th2_).A, R2)):
+            r5 = guard(j, site, feat, detail, ("val", site, bd), fn)
+            if r5 is not None:
+                r5 = np.asarray(r5, dtype=float)
+                ok = r5.shape == want.shape and float(np.max(np.abs(r5 - want))) <= TOL
+                check(j, ok, site, feat, "differs-from-the-rotation-of-exp(S)", dict(detail, got=r5.tolist()), ("val", site, bd))
         # exp(S, theta) = exp(theta S) for a unit twist; one-parameter subgroup
         if th > 0:
             r3 = guard(j, "base.trexp(unit,theta)", feat, detail, ("val", "unit", bd, tb), lambda: b.trexp(S / th, th))
